@@ -85,8 +85,8 @@ impl Check for RoundTrip {
     }
     fn runs(&self, tier: Tier) -> u64 {
         match tier {
-            Tier::Quick => 20_000,
-            Tier::Thorough => 1_000_000,
+            Tier::Quick => 200_000,
+            Tier::Thorough => 4_000_000,
         }
     }
     fn run_seed(&self, seed: u64) -> RunOut {
@@ -292,8 +292,8 @@ impl Check for Totality {
     }
     fn runs(&self, tier: Tier) -> u64 {
         match tier {
-            Tier::Quick => 400,
-            Tier::Thorough => 12_000,
+            Tier::Quick => 1_500,
+            Tier::Thorough => 30_000,
         }
     }
     fn run_seed(&self, seed: u64) -> RunOut {
@@ -465,8 +465,8 @@ fn judge(
         Ok(Ok(c)) => {
             if must_fail {
                 return Some((
-                    "C09/prefix-accepted".into(),
-                    format!("a proper prefix of the package restored successfully: {:?}", clip(text)),
+                    "C09/damaged-package-accepted".into(),
+                    format!("a truncated package, or one whose checksum / version no longer matches its content, restored successfully: {:?}", clip(text)),
                 ));
             }
             if &c != original_level {
@@ -504,8 +504,8 @@ fn judge(
         Ok(Ok(s)) => {
             if must_fail {
                 return Some((
-                    "C09/prefix-accepted".into(),
-                    format!("a proper prefix of the package deserialized and validated: {:?}", clip(text)),
+                    "C09/damaged-package-accepted".into(),
+                    format!("a truncated package, or one whose checksum / version no longer matches its content, deserialized and validated: {:?}", clip(text)),
                 ));
             }
             if &s != original_seq {
@@ -619,6 +619,57 @@ fn structural_edits(text: &str, r: &mut Rng) -> Vec<(&'static str, String)> {
             let mut c = v.clone();
             *at(&mut c, p) = a;
             out.push(("edit_number", c.to_string()));
+        }
+    }
+    // move digits across the boundary of two numbers that follow each other in the text
+    // (an encoding that concatenates fields without separators cannot tell these apart)
+    {
+        let bytes = text.as_bytes();
+        let mut nums: Vec<(usize, usize)> = vec![];
+        let mut i = 0;
+        let mut in_str = false;
+        while i < bytes.len() {
+            let c = bytes[i];
+            if c == b'"' && (i == 0 || bytes[i - 1] != b'\\') {
+                in_str = !in_str;
+            }
+            if !in_str && c.is_ascii_digit() && i > 0 && bytes[i - 1] == b':' {
+                let st = i;
+                while i < bytes.len() && bytes[i].is_ascii_digit() {
+                    i += 1;
+                }
+                nums.push((st, i));
+                continue;
+            }
+            i += 1;
+        }
+        for w in nums.windows(2) {
+            let (a, b) = (w[0], w[1]);
+            let sa = &text[a.0..a.1];
+            let sb = &text[b.0..b.1];
+            // first k digits of b appended to a
+            for k in 1..sb.len() {
+                let nb = &sb[k..];
+                if nb.len() > 1 && nb.starts_with('0') {
+                    continue;
+                }
+                let na = format!("{sa}{}", &sb[..k]);
+                if na.len() > 1 && na.starts_with('0') {
+                    continue;
+                }
+                let t = format!("{}{}{}{}{}", &text[..a.0], na, &text[a.1..b.0], nb, &text[b.1..]);
+                out.push(("shift_digits_between_numbers", t));
+            }
+            // last k digits of a prepended to b
+            for k in 1..sa.len() {
+                let na = &sa[..sa.len() - k];
+                let nb = format!("{}{sb}", &sa[sa.len() - k..]);
+                if nb.len() > 1 && nb.starts_with('0') {
+                    continue;
+                }
+                let t = format!("{}{}{}{}{}", &text[..a.0], na, &text[a.1..b.0], nb, &text[b.1..]);
+                out.push(("shift_digits_between_numbers", t));
+            }
         }
     }
     // version / checksum
@@ -773,6 +824,13 @@ impl Tamper {
             return out;
         }
         out.inner_digests.push(dig(text));
+        // char span of the checksum's hex digits: any edit inside it makes the stored checksum
+        // differ from the digest of the content, so the restore must fail
+        let cs_span: Option<(usize, usize)> = text.find("\"checksum\":\"").map(|b| {
+            let start_b = b + "\"checksum\":\"".len();
+            let end_b = text[start_b..].find('"').map(|e| start_b + e).unwrap_or(text.len());
+            (text[..start_b].chars().count(), text[..end_b].chars().count())
+        });
         // every single-position fault
         let mut singles: Vec<Fault> = vec![];
         enumerate_faults(text, &C09_SUBST, &C09_INSERT, &mut |f, m| {
@@ -787,7 +845,20 @@ impl Tamper {
                 _ => "duplicate_block",
             };
             *faults.entry(k).or_insert(0) += 1;
-            let v = judge(&orig_level, &orig_seq, m, f.kind == "truncate", &mut st);
+            let in_checksum = match cs_span {
+                Some((a, b)) => match f.kind.as_str() {
+                    "delete" | "subst" | "bitflip" => f.at >= a && f.at < b,
+                    "swap" => f.at >= a && f.at + 1 < b,
+                    "insert" => f.at >= a && f.at <= b,
+                    "dup" => f.at >= a && f.at + f.len <= b,
+                    _ => false,
+                },
+                None => false,
+            };
+            if in_checksum {
+                *faults.entry("checksum_digit_damaged").or_insert(0) += 1;
+            }
+            let v = judge(&orig_level, &orig_seq, m, f.kind == "truncate" || in_checksum, &mut st);
             push(&mut out, v);
             if singles.len() < 4000 {
                 singles.push(f.clone());
@@ -798,7 +869,11 @@ impl Tamper {
         for (k, m) in structural_edits(text, &mut r) {
             out.inner_evals += 1;
             *faults.entry(k).or_insert(0) += 1;
-            let v = judge(&orig_level, &orig_seq, &m, false, &mut st);
+            let must_fail = matches!(
+                k,
+                "checksum_truncated" | "checksum_empty" | "checksum_one_nibble" | "change_version"
+            );
+            let v = judge(&orig_level, &orig_seq, &m, must_fail, &mut st);
             push(&mut out, v);
         }
         // sampled pairs of single faults
@@ -865,8 +940,8 @@ impl Check for Tamper {
     }
     fn runs(&self, tier: Tier) -> u64 {
         match tier {
-            Tier::Quick => 48,
-            Tier::Thorough => 2_400,
+            Tier::Quick => 400,
+            Tier::Thorough => 8_000,
         }
     }
     fn run_seed(&self, seed: u64) -> RunOut {
